@@ -1,8 +1,13 @@
 from core import Unit as U
 HASH = ["secp256k1_sha256_write", "secp256k1_sha256_finalize"]
 UNITS = [
-    U("C02.challenge", ["C02"], "harness/C02/challenge.c", "h_challenge", replace=HASH,
+    U("C02.challenge_stream", ["X-example"], "harness/C02/challenge.c", "h_challenge", replace=HASH,
       functions=["secp256k1_schnorrsig_challenge", "secp256k1_schnorrsig_sha256_tagged", "secp256k1_scalar_set_b32"],
       timeout=300, min_obl=20, unwind=66,
-      note="hash stream contract (proved in C05.sha256_write/finalize) replaces the SHA calls; msglen symbolic up to 100000"),
+      note="EXAMPLE of the stream-level idiom, not part of any claim: it demands that hashing goes through sha256_write/finalize, which is stricter than the property (a correct hand-rolled final block would fail it); C02.challenge_blocks is the claimed unit"),
+    U("C02.challenge_blocks", ["C02", "C05"], "harness/C02/challenge_blocks.c", "h_challenge_blocks",
+      functions=["secp256k1_schnorrsig_challenge", "secp256k1_sha256_write", "secp256k1_sha256_finalize", "secp256k1_sha256_initialize_midstate"],
+      assumed=["SHA-256 compression function (harness stub verif_compress: havocs the state, logs its input blocks)"],
+      timeout=600, min_obl=100, unwind=66, replay=True,
+      note="real sha256_write/finalize; block-level FIPS 180-4 padding spec; msglen symbolic <= 100000"),
 ]
